@@ -222,6 +222,11 @@ func (e *Exec) checkPosts(fr *Frame, st *State, ret *ssa.Return, vals []Val) {
 		}
 		o.Pos = posOf(e.P, ret.Pos())
 	}
+	if e.fc.ChanResult != "" && len(vals) == 1 {
+		// the contract promises the channel behind a particular ghost log
+		cl := e.chanLogOf(vals[0])
+		e.obligeNoAssume(st, "post:yields"+suffix, "post", e.fc.ChanTags, boolStr(cl != nil && cl.N == e.fc.ChanResult), "the result is the channel logged by "+e.fc.ChanResult, ret.Pos())
+	}
 	e.checkModifies(fr, st, ret, suffix)
 	if e.cover {
 		o := e.obligeNoAssume(st, "cover:return"+suffix, "cover", nil, "false", "return is reachable under the preconditions", ret.Pos())
@@ -710,6 +715,9 @@ func (e *Exec) callModular(fr *Frame, st *State, in ssa.Instruction, fc *FuncCon
 		}
 	}
 	_ = sig
+	if fc.ChanResult != "" && len(results) == 1 {
+		results[0].Origin = "chanlog:" + fc.ChanResult
+	}
 	qenv := &Env{e: e, pkg: pk, vars: map[string]Val{}, st: st, old: penv, ctx: "call to " + calleeName}
 	for n, v := range penv.vars {
 		qenv.vars[n] = v
